@@ -4,6 +4,7 @@
 //        Erase c a b | EraseAt c a | PopBack c | Resize c n | Reserve c n | Clear c | CopyCtor c d | MoveCtor c d |
 //        CopyAssign c d | MoveAssign c d | Eq c d | Less c d | At c i | Index c i | End
 #include "common/vlog.h"
+#include <type_traits>
 #ifdef USE_STD_PORTABLE
 #include <igris/container/std_portable.h>
 #define KEEP_ON_MOVE 1      // the amalgamated static_vector's move constructor leaves the moved-from elements in the source
@@ -74,6 +75,10 @@ static int val_of(const SP &s) { return s.self == &s ? s.v : -777000 - s.v; }
 template <class E> static E from_code(long v) { return E((int)v); }
 template <> double from_code<double>(long v) { return v == 1000 ? 0.0 : v == 1001 ? -0.0 : v == 1002 ? std::nan("") : (double)v; }
 
+// ---- a class derived from the element type with more members (CreateFrom mode 3: the range is given by pointers to the derived class;
+// each element is sliced to the base, the stride of the source is that of the derived class)
+template <class E, bool IsClass = std::is_class<E>::value> struct Wider { };
+template <class E> struct Wider<E, true> : E { char pad[24]; Wider(const E &e) : E(e) { memset(pad, 0x77, sizeof pad); } };
 // ---- a single-pass input iterator (copies share the read position, as with std::istream_iterator) ----------------
 template <class E> struct SharedSrc { const std::vector<E> *v; size_t pos; };
 template <class E> struct InIt {
@@ -115,7 +120,9 @@ template <class Cn, class E, bool Static> struct Runner {
                 g_blocks.push_back(Block{(char *)c(k).data(), (sizeof(Cn) - sizeof(size_t)) / sizeof(E), sizeof(E), g_next_id, true}); { Ev e("Alloc"); e.i("b", g_next_id).i("n", (sizeof(Cn) - sizeof(size_t)) / sizeof(E)); e.end(); } ++g_next_id; }
             if (b == 2) {   // the range is given by single-pass input iterators
                 if constexpr (Static && requires { Cn(src.data(), src.data() + src.size()); }) { SharedSrc<E> ss{&src, 0}; new (&c(k)) Cn(InIt<E>(&ss), InIt<E>()); } else unsupported(name); }
-            else if (b == 0) { if constexpr (requires { Cn(src.data(), src.data() + src.size()); }) new (&c(k)) Cn(src.data(), src.data() + src.size()); else unsupported(name); }
+            else if (b == 3 && std::is_class<E>::value) {
+                if constexpr (std::is_class<E>::value) { if constexpr (requires { Cn((Wider<E> *)0, (Wider<E> *)0); }) { std::vector<Wider<E>> ws(src.begin(), src.end()); new (&c(k)) Cn(ws.data(), ws.data() + ws.size()); } else unsupported(name); } }
+            else if (b == 0 || b == 3) { if constexpr (requires { Cn(src.data(), src.data() + src.size()); }) new (&c(k)) Cn(src.data(), src.data() + src.size()); else unsupported(name); }
             else if constexpr (requires { Cn(std::initializer_list<E>{}); }) { // initializer list of the same values (lists of length 0..5)
                 switch (src.size()) { case 0: new (&c(k)) Cn(std::initializer_list<E>{}); break; case 1: new (&c(k)) Cn(std::initializer_list<E>{src[0]}); break; case 2: new (&c(k)) Cn(std::initializer_list<E>{src[0], src[1]}); break;
                     case 3: new (&c(k)) Cn(std::initializer_list<E>{src[0], src[1], src[2]}); break; case 4: new (&c(k)) Cn(std::initializer_list<E>{src[0], src[1], src[2], src[3]}); break; default: new (&c(k)) Cn(std::initializer_list<E>{src[0], src[1], src[2], src[3], src[4]}); break; } }
